@@ -1,10 +1,176 @@
-//! C10 — not built yet.
-use crate::ev::Ctx;
-pub fn run(_ctx: &Ctx) -> i32 {
-    println!("INCONCLUSIVE property=C10 check not built yet");
-    2
+//! C10 — xt recognises its own output without -f.
+//!
+//! For collection-rooted documents, each output format F, one or many
+//! documents: o = xt(A->F)(d...); the detect hook (slice and scheduled readers)
+//! must name F and xt(None->X)(o) must equal xt(F->X)(o). For F = TOML the
+//! property's two exceptions are decided by independent predicates.
+
+use serde_json::{json, Value};
+
+use crate::ev::{self, Acc, Ctx, Finish, Violation};
+use crate::fmts::{Fmt, ALL, STREAMING};
+use crate::gen::{gen_collection, Classes, GenOpts};
+use crate::model::{hex, preview, unhex, Val};
+use crate::mon::{Sched, SchedReader};
+use crate::rng::Rng;
+use crate::run::{run_mode, run_slice, Mode};
+use crate::spell::{spell, Feats};
+
+fn detect_slice(b: &[u8]) -> Result<Option<Fmt>, String> {
+    crate::run::guarded_any(|| xt::verif::detect_slice(b)).map_err(|p| format!("panic: {p}"))?.map(|o| o.map(Fmt::from_xt)).map_err(|e| format!("io error: {e}"))
 }
-pub fn replay(_case: &serde_json::Value) -> i32 {
-    println!("replay not built yet");
-    2
+
+fn detect_reader(b: &[u8], s: &Sched) -> Result<Option<Fmt>, String> {
+    crate::run::guarded_any(|| xt::verif::detect_reader(SchedReader::new(b, s.clone()))).map_err(|p| format!("panic: {p}"))?.map(|o| o.map(Fmt::from_xt)).map_err(|e| format!("io error: {e}"))
+}
+
+fn show(d: &Result<Option<Fmt>, String>) -> String {
+    match d {
+        Ok(Some(f)) => f.name().to_string(),
+        Ok(None) => "none".into(),
+        Err(e) => format!("error({e})"),
+    }
+}
+
+/// First keys aimed at detection: empty, numeric-looking, quoted, non-ASCII,
+/// starting with a byte in 0x80-0xDF once encoded.
+const FIRST_KEYS: &[&str] = &["", "1", "-1", "1.5", "true", "null", "a", "a b", "\"q\"", "'q'", "[a]", "{a}", "#c", "a: b", "a = b", "é", "\u{700}x", "\u{7ff}", "中", "\u{80}", "\u{9f}z", "~", "-", "- a", "---", "...", "%YAML", "&a", "*a", "!t", "|", ">", "@", "`", "=", "0x1F", "key", "\t", " ", "\n"];
+
+pub fn gen_doc_for_detection(rng: &mut Rng, cl: &mut Classes) -> Val {
+    let o = GenOpts { max_depth: 3, max_width: 4, ..GenOpts::common() };
+    let m = rng.chance(2, 3);
+    let mut d = gen_collection(rng, &o, 0, cl, m);
+    if let Val::Map(entries) = &mut d {
+        if rng.chance(2, 3) {
+            let k = rng.pick(FIRST_KEYS).to_string();
+            entries.retain(|(ek, _)| *ek != Val::Str(k.clone()));
+            let v = match rng.below(4) {
+                0 => Val::Map(vec![]),
+                1 => Val::Seq(vec![Val::Int(1)]),
+                2 => Val::s("a: b"),
+                _ => Val::Int(rng.below(100) as i128),
+            };
+            entries.insert(0, (Val::Str(k), v));
+        }
+    }
+    d
+}
+
+pub fn judge(o: &[u8], f: Fmt, x: Fmt, scheds: &[Sched], acc: &mut Acc) {
+    acc.evals += 1;
+    let case = |s: &str| json!({"output_hex": hex(o), "output_preview": preview(o, 300), "written_as": f.name(), "then_to": x.name(), "schedule": s});
+    let ds = detect_slice(o);
+    let mut all: Vec<(String, Result<Option<Fmt>, String>)> = vec![("slice".into(), ds.clone())];
+    for s in scheds {
+        all.push((format!("reader:{}", s.describe()), detect_reader(o, s)));
+    }
+    for (how, d) in &all {
+        acc.count(&format!("detected_{}_as_{}", f.name(), show(d).split('(').next().unwrap()));
+        let ok = match d {
+            Ok(Some(g)) if *g == f => true,
+            Ok(Some(g)) if f == Fmt::Toml => {
+                // exceptions: an earlier trial legitimately accepts the text
+                let json_ex = *g == Fmt::Json && crate::read::json::value_at_start(o);
+                let yaml_ex = *g == Fmt::Yaml && crate::read::yaml::first_doc_is_collection(o);
+                if json_ex {
+                    acc.count("toml_exception_first_token_is_json_value");
+                }
+                if yaml_ex {
+                    acc.count("toml_exception_is_yaml_collection_document");
+                }
+                json_ex || yaml_ex
+            }
+            _ => false,
+        };
+        if !ok {
+            acc.violation(Violation { sig: format!("own {} output detected as {} ({})", f.name(), show(d).split('(').next().unwrap(), how.split(':').next().unwrap()), case: case(how), observed: format!("detect({how}) = {}", show(d)), expected: format!("{}{}", f.name(), if f == Fmt::Toml { " (or JSON/YAML under the two stated exceptions)" } else { "" }) });
+            return;
+        }
+    }
+    // xt -t F | xt  ==  xt -t F | xt -f F   (only when detection names F)
+    if ds == Ok(Some(f)) {
+        for mode in [Mode::Slice, Mode::Reader(scheds.first().cloned().unwrap_or(Sched::One))] {
+            let a = run_mode(o, &mode, None, x);
+            let b = run_mode(o, &mode, Some(f), x);
+            acc.count("pipeline_equivalence_checked");
+            if a.verdict != b.verdict || a.out != b.out {
+                acc.violation(Violation { sig: format!("xt -t {} | xt differs from xt -t {} | xt -f {}", f.name(), f.name(), f.name()), case: case(&mode.describe()), observed: format!("detected: {} [{}]; explicit: {} [{}]", a.verdict.show(), preview(&a.out, 120), b.verdict.show(), preview(&b.out, 120)), expected: "identical outcome".into() });
+                return;
+            }
+        }
+    }
+}
+
+pub fn run(ctx: &Ctx) -> i32 {
+    let n = ctx.size(12000, 400000);
+    let seed = ctx.seed;
+    let acc = crate::par::run(n, 16, |i, acc| {
+        let mut rng = Rng::derive(seed, 0xc10, i as u64);
+        let mut cl = Classes::default();
+        let n_docs = *rng.pick(&[1usize, 1, 1, 2, 3, 5]);
+        let docs: Vec<Val> = (0..n_docs).map(|_| gen_doc_for_detection(&mut rng, &mut cl)).collect();
+        cl.add_to(acc);
+        acc.distinct(&docs.iter().map(|d| d.show()).collect::<Vec<_>>());
+        acc.sample_every(1499, || json!({"documents": docs.iter().map(|d| ev::truncate(&d.show(), 120)).collect::<Vec<_>>()}));
+        // source stream: JSON lines (plain spelling)
+        let mut feats = Feats::default();
+        let mut src = vec![];
+        for d in &docs {
+            src.extend_from_slice(&spell(Fmt::Json, d, &mut rng, &mut feats, true));
+            src.push(b'\n');
+        }
+        let scheds = [Sched::One, Sched::Fixed(*rng.pick(&[2usize, 3, 5, 4096])), Sched::Random(rng.next(), 16)];
+        for f in ALL {
+            let input: Vec<u8> = if f == Fmt::Toml {
+                // TOML holds one document, which must be representable
+                match crate::gen::tomlify(&docs[0]) {
+                    Some(t) => {
+                        let mut b = spell(Fmt::Json, &t, &mut rng, &mut feats, true);
+                        b.push(b'\n');
+                        b
+                    }
+                    None => continue,
+                }
+            } else {
+                src.clone()
+            };
+            let o = run_slice(&input, Some(Fmt::Json), f);
+            if !o.verdict.is_ok() {
+                acc.count("not_translatable_skipped");
+                continue;
+            }
+            if f == Fmt::Toml && o.out.is_empty() {
+                // the empty table is written as nothing at all: there is no output to recognise
+                acc.count("empty_toml_output_skipped");
+                continue;
+            }
+            acc.count(&format!("outputs_{}_{}", f.name(), if n_docs > 1 && f != Fmt::Toml { "multi" } else { "single" }));
+            let x = STREAMING[(i + f.idx()) % 3];
+            judge(&o.out, f, x, &scheds, acc);
+        }
+    });
+    let rule = format!("{} document sets (1-5 collection-rooted documents; maps get a first key from a pool of {} detection-hostile keys: empty, numeric-looking, quoted, YAML/TOML indicators, non-ASCII incl. U+0080-U+07FF) x 4 output formats (TOML: first document, TOML-representable); every output is offered to the detect hook as a slice and under 3 read schedules, and xt(None->X) is compared with xt(F->X) in slice and reader mode; distinct non-trivial = distinct document sets", n, FIRST_KEYS.len());
+    ev::finish(
+        Finish { ctx, level: "exploration", rule, assumptions: vec!["TOML exceptions decided by the harness's hand-written JSON reader and libyaml-event reader, not by xt".into(), "an empty table is written to TOML as zero bytes and is skipped (nothing to recognise)".into()], extra: serde_json::Map::new(), exhaustive: false, min_distinct: 1000, must_reach: vec![("pipeline_equivalence_checked".into(), 1000), ("detected_toml_as_toml".into(), 100), ("detected_yaml_as_yaml".into(), 100), ("detected_msgpack_as_msgpack".into(), 100), ("detected_json_as_json".into(), 100)] },
+        acc,
+    )
+}
+
+pub fn replay(v: &Value) -> i32 {
+    let c = &v["case"];
+    let (Some(o), Some(f), Some(x)) = (c["output_hex"].as_str().and_then(unhex), c["written_as"].as_str().and_then(Fmt::parse), c["then_to"].as_str().and_then(Fmt::parse)) else {
+        println!("bad replay case");
+        return 2;
+    };
+    let scheds = [Sched::One, Sched::Fixed(3), Sched::Random(1, 16)];
+    println!("output [{}] written as {}; detect(slice) = {}", preview(&o, 400), f.name(), show(&detect_slice(&o)));
+    let mut acc = Acc::default();
+    judge(&o, f, x, &scheds, &mut acc);
+    if acc.vio_count > 0 {
+        println!("VIOLATION property=C10 replay=<this file> (reproduced): {}", acc.violations[0].observed);
+        1
+    } else {
+        println!("not reproduced");
+        0
+    }
 }
